@@ -1371,7 +1371,7 @@ def block_entries():
 
 def corrupt_values():
     """Field values (valid field-content) that the detailed parsers are likely to refuse."""
-    return st.one_of(field_content(), st.sampled_from(['x', '@', '1x', '-1', '=', ';', ',', '{', '"', 'max-age', '0 0',
+    return st.one_of(field_content(), st.just(''), st.sampled_from(['x', '@', '1x', '-1', '=', ';', ',', '{', '"', 'max-age', '0 0',
                                                        'text', '/', '1;', 'a=b=c', '']))
 
 
